@@ -378,8 +378,11 @@ def known_findings(prop):
     return [e for e in json.load(open(p)) if e.get("property") == prop and e.get("status") == "known"]
 
 
+EVID = os.environ.get("VERIF_EVIDENCE") or os.path.join(VERIF, "evidence")   # redirected by tools/try_mutant.py
+
+
 def write_replay(prop, name, content):
-    d = os.path.join(VERIF, "evidence", "replays")
+    d = os.path.join(EVID, "replays")
     os.makedirs(d, exist_ok=True)
     h = hashlib.sha1(content.encode()).hexdigest()[:10]
     path = os.path.join(d, "%s-%s-%s.txt" % (prop, name, h))
@@ -389,10 +392,10 @@ def write_replay(prop, name, content):
 
 
 def write_evidence(prop, tier, seed, coverage, assumptions, wall_s, violations, level="proof"):
-    os.makedirs(os.path.join(VERIF, "evidence"), exist_ok=True)
+    os.makedirs(EVID, exist_ok=True)
     ev = dict(property_id=prop, tier=tier, seed=int(seed), level=level, coverage=coverage,
               assumptions=assumptions, wall_s=round(wall_s, 2), violations=int(violations))
-    with open(os.path.join(VERIF, "evidence", prop + ".json"), "w") as fh:
+    with open(os.path.join(EVID, prop + ".json"), "w") as fh:
         json.dump(ev, fh, indent=1, sort_keys=True)
         fh.write("\n")
 
